@@ -286,7 +286,7 @@ def ob_flow(ctx, D, fn, steps=1):
 def ob_derivatives(ctx, D, mode, which):
     import deepali.core.functional as U
 
-    shape = (4, 4) if D == 2 else (3, 3, 3)
+    shape = (4, 4) if D == 2 else ((4, 4, 4) if mode == "bspline" else (3, 3, 3))  # cubic B-spline kernels need 4 samples per axis
     u = _vals(ctx, "u", (1, 2) + shape, scale=3, nice=(-4, 4))
     sigma = 0.7 if mode == "gaussian" else None
 
